@@ -78,6 +78,10 @@ def byte_parts(p, value):
         if isinstance(e, ast.BinOp) and isinstance(e.op, ast.Add):
             a, b = parts(e.left, depth + 1), parts(e.right, depth + 1)
             return None if a is None or b is None else a + b
+        if isinstance(e, ast.Call) and isinstance(e.func, ast.Attribute) and e.func.attr == "join" and isinstance(e.func.value, ast.Constant) \
+                and e.func.value.value == b"" and len(e.args) == 1 and not e.keywords:
+            # b"".join(chunks): the chunks one after the other
+            return chunks(e.args[0], depth + 1)
         if isinstance(e, ast.Name):
             init = [x for x in p.effects if isinstance(x, ast.Assign) and u(x.targets[0]) == e.id]
             if len(init) != 1:
@@ -103,6 +107,41 @@ def byte_parts(p, value):
                         return None
             return out
         return [("bytes", u(e))]
+    def chunks(e, depth):
+        """the byte strings of a list / tuple of chunks: a display, or a local list built by append / extend / +="""
+        if depth > 6:
+            return None
+        if isinstance(e, (ast.List, ast.Tuple)):
+            out = []
+            for x in e.elts:
+                r = chunks(x.value, depth + 1) if isinstance(x, ast.Starred) else parts(x, depth + 1)
+                if r is None:
+                    return None
+                out += r
+            return out
+        if isinstance(e, ast.Name):
+            init = [x for x in p.effects if isinstance(x, ast.Assign) and u(x.targets[0]) == e.id]
+            if len(init) != 1:
+                return None
+            out = chunks(init[0].value, depth + 1)
+            if out is None:
+                return None
+            for x in p.effects[p.effects.index(init[0]) + 1:]:
+                r = []
+                if isinstance(x, ast.AugAssign) and u(x.target) == e.id and isinstance(x.op, ast.Add):
+                    r = chunks(x.value, depth + 1)
+                elif isinstance(x, ast.Expr) and isinstance(x.value, ast.Call) and isinstance(x.value.func, ast.Attribute) and u(x.value.func.value) == e.id and len(x.value.args) == 1:
+                    if x.value.func.attr == "append":
+                        r = parts(x.value.args[0], depth + 1)
+                    elif x.value.func.attr == "extend":
+                        r = chunks(x.value.args[0], depth + 1)
+                    else:
+                        return None
+                if r is None:
+                    return None
+                out += r
+            return out
+        return None
     from ..rulekit import unold
     try:
         return parts(ast.parse(unold(value), mode="eval").body)
